@@ -63,7 +63,7 @@ prop("C08", "exploration",
      ["range proofs are generated at the bulletproof size only (675 bytes, real or arbitrary content): other lengths are not proofs a wallet can hold and the binary reader pads to that size",
       "slatepack payloads are bounded to 100 kB (grin_core BinReader refuses larger single reads); ill-typed combinations (feature arguments on a plain kernel, invalid FeeFields) are left to C09",
       "the transaction inside a slate is compared as (inputs, outputs with features and proofs, offset); the kernel is recomputed by design"],
-     required_hist=["field:feat=2", "field:feat=3", "field:proof=with-rsig", "field:coms=some", "field:recipients=3", "field:record:txlog", "field:record:context", "field:record:slatepack-encrypted"])
+     required_hist=["field:feat=2", "field:feat=3", "field:proof=with-rsig", "field:coms=some", "field:recipients=3", "field:record:txlog", "field:record:context", "field:record:slatepack-encrypted", "real-kernel:feat=2:rebuilt-equal", "real-kernel:feat=3:rebuilt-equal", "field:fee:multiple-of-2^40", "heavy-slate-within-the-weight-limit:slatepack-read-back"])
 
 prop("C10", "exploration",
      "slates from the C08 generator packed for 0-4 recipients with/without sender; per message: every recipient key must recover slate and "
